@@ -1208,7 +1208,10 @@ class EdgeQLSourceGenerator(codegen.SourceGenerator):
             )
 
     def visit_AlterDatabase(self, node: qlast.AlterDatabase) -> None:
-        self._visit_AlterObject(node, node.flavor)
+        def after_name() -> None:
+            if node.force:
+                self._write_keywords(' FORCE')
+        self._visit_AlterObject(node, node.flavor, after_name=after_name)
 
     def visit_DropDatabase(self, node: qlast.DropDatabase) -> None:
         def after_name() -> None:
